@@ -1,14 +1,34 @@
-(* Theorems about commit (Model/Cache.v: commit_file, commit_node), stated through the Props of
-   Proofs/CacheDefs.v.
+(* Theorems about commit (Model/Cache.v: commit_file, commit_node; Model/Index.v, Model/System.v
+   for the command level), stated through the Props of Proofs/CacheDefs.v.
 
-     commit_cache_ok      = stmt_commit_cache_ok    (C02, as in CacheDefs)
-     commit_skip          = stmt_commit_skip        (as in CacheDefs)
-     commit_logical_resolved, commit_logical_plain  (stmt_commit_logical is FALSE as written:
-                                                     counterexample cex_logical; repaired premise
-                                                     [resolved c n])
-     ...
+   Proved exactly as stated in CacheDefs:
+     commit_cache_ok : stmt_commit_cache_ok H        (C02; the lookup law alookup_ins_sorted of
+                                                      ins_sorted holds for EVERY list, no
+                                                      sortedness premise is needed)
+     commit_skip     : stmt_commit_skip H
+     commit_idem     : stmt_commit_idem H            (C15; uses Proofs/ManifestRT.v, whose round
+                                                      trip does not depend on the entry flags;
+                                                      commit_idem_links: also for linked trees)
+     step_cache_ok, history_cache_ok                 (C02 for every command / history of commands)
 
-   No axioms; every theorem is followed by Print Assumptions. *)
+   FALSE as stated in CacheDefs (refuted below), proved under repaired premises:
+     stmt_commit_logical   ~ by cex_logical.      commit_logical_resolved (+ [resolved c n]: no
+                                                  dangling cache link), commit_logical_plain
+     stmt_commit_merkle    ~ by cex_merkle_link, cex_merkle_blob.
+                                                  commit_merkle_ctree / _plain / _final
+     stmt_commit_inv       ~ by cex_inv (= cex_inv_plain + codec_ok_holds), cex_inv_closed.
+                                                  commit_inv_ctree / _tame / _final
+     stmt_commit_ok        ~ by cex_ok.           commit_ok_ctree / _tame / _final
+   Extra premises used by the repaired statements:
+     tame n        (blob_tame b for every file: IF the bytes of a file decode as a directory
+                    manifest, its entries carry no flags and are not directories)
+     ctree c n     (= sorted good names + tame files + cache links allowed if resolved in c;
+                    plain n /\ tame n -> ctree c n)
+     man_present c (a directory child recorded in a manifest of the cache is in the cache)
+     wf_text (a_path a), H_text, codec_ok (codec_ok is proved: codec_ok_holds; *_final versions)
+
+   No axioms; every theorem is followed by Print Assumptions (theorems inside a Section: right
+   after the End of the section). *)
 From Coq Require Import ZArith NArith List Bool Sorted Lia ZifyBool String.
 From DudV Require Import Base.Bytes Base.JsonStr Base.Json Base.GoPath Model.Fs Model.Cache
   Model.Stage Model.Index Model.System Proofs.CacheDefs.
@@ -536,14 +556,19 @@ Inductive tame : node -> Prop :=
 | tm_other : tame Other
 | tm_dir es : Forall (fun e => tame (snd e)) es -> tame (Dir es).
 
-(* plain trees in which committed files may have been replaced by (resolved) cache links *)
-Inductive ctree (c : cache) : node -> Prop :=
-| ct_file b : blob_tame b -> ctree c (File b)
-| ct_link d o : cget c d = Some o -> ctree c (LinkC d)
+(* sorted trees of good names whose files satisfy [B] and in which committed files may have
+   been replaced by (resolved) cache links; [ctree]: every file is tame *)
+Inductive gtree (B : bytes -> Prop) (c : cache) : node -> Prop :=
+| ct_file b : B b -> gtree B c (File b)
+| ct_link d o : cget c d = Some o -> gtree B c (LinkC d)
 | ct_dir es :
     StronglySorted key_lt es ->
-    Forall (fun e => good_name (fst e) /\ ctree c (snd e)) es ->
-    ctree c (Dir es).
+    Forall (fun e => good_name (fst e) /\ gtree B c (snd e)) es ->
+    gtree B c (Dir es).
+Arguments ct_file {B} c b _.
+Arguments ct_link {B} c d o _.
+Arguments ct_dir {B} c es _ _.
+Notation ctree := (gtree blob_tame).
 
 Lemma plain_tame_ctree c n : plain n -> tame n -> ctree c n.
 Proof.
@@ -556,7 +581,7 @@ Proof.
     constructor; [split; [exact Hg|exact (IHe He Hte)]|exact (IHr Hr' Htr)].
 Qed.
 
-Lemma ctree_le c c' n : cache_le c c' -> ctree c n -> ctree c' n.
+Lemma ctree_le {B} c c' n : cache_le c c' -> gtree B c n -> gtree B c' n.
 Proof.
   intros Hle. induction n as [b|d|t| |es IH] using node_ind2; intros Hr;
     try (inversion Hr; fail).
@@ -569,7 +594,7 @@ Proof.
     constructor; [split; [exact Hg|exact (IHe He)]|exact (IHr Hr')].
 Qed.
 
-Lemma ctree_resolved c n : ctree c n -> resolved c n.
+Lemma ctree_resolved {B} c n : gtree B c n -> resolved c n.
 Proof.
   induction n as [b|d|t| |es IH] using node_ind2; intros Hr; try (inversion Hr; fail).
   - constructor.
@@ -579,9 +604,9 @@ Proof.
     inversion Hes as [|e' r' [_ He] Hr']; subst. constructor; [exact (IHe He)|exact (IHr Hr')].
 Qed.
 
-Lemma Forall_ctree_le c c' (es : list (bytes * node)) :
-  cache_le c c' -> Forall (fun e => good_name (fst e) /\ ctree c (snd e)) es ->
-  Forall (fun e => good_name (fst e) /\ ctree c' (snd e)) es.
+Lemma Forall_ctree_le {B} c c' (es : list (bytes * node)) :
+  cache_le c c' -> Forall (fun e => good_name (fst e) /\ gtree B c (snd e)) es ->
+  Forall (fun e => good_name (fst e) /\ gtree B c' (snd e)) es.
 Proof.
   intros Hle Hes. eapply Forall_impl; [|exact Hes]. intros e [Hg He].
   split; [exact Hg|exact (ctree_le _ _ _ Hle He)].
@@ -673,17 +698,441 @@ Proof.
   - apply Hmp.
 Qed.
 
+Definition art_present (c : cache) (a : artifact) : Prop :=
+  a_isdir a = true -> exists o m, cget c (a_cs a) = Some o /\ dec_manifest (o_data o) = Some m.
+
+(* the development below is generic in what is known of the flags of recorded children
+   ([Q]; cache invariant [MP]; condition [B] on file contents): it is instantiated with
+   (plain_child, man_plain, blob_tame) and, for idempotence, with the trivial predicates *)
+Definition old_okQ (Q : artifact -> Prop) (old : list (bytes * artifact)) : Prop :=
+  Forall (fun kv => a_path (snd kv) = fst kv /\ Q (snd kv)) old.
+Definition ent_okQ (Q : artifact -> Prop) (kv : bytes * artifact) : Prop :=
+  a_path (snd kv) = fst kv /\ valid_entry_name (fst kv) = true /\
+  wf_text (fst kv) /\ wf_text (a_cs (snd kv)) /\ Q (snd kv).
+Definition wfQ (Q : artifact -> Prop) (m : manifest) : Prop :=
+  wf_text (m_path m) /\ StronglySorted man_key_lt (m_contents m) /\
+  Forall (ent_okQ Q) (m_contents m).
+
+Lemma child_of_propsQ (Q : artifact -> Prop) old name ch :
+  (forall nm d, Q (fresh_art nm d)) -> old_okQ Q old ->
+  a_path (child_of old name ch) = name /\ Q (child_of old name ch) /\
+  a_isdir (child_of old name ch) = is_dir ch.
+Proof.
+  intros Qf Hold. unfold child_of.
+  assert (Hf : a_path (fresh_art name (is_dir ch)) = name /\ Q (fresh_art name (is_dir ch)) /\
+               a_isdir (fresh_art name (is_dir ch)) = is_dir ch)
+    by (split; [reflexivity|split; [apply Qf|reflexivity]]).
+  destruct (alookup name old) as [oa|] eqn:El; [|exact Hf].
+  destruct (Bool.eqb (a_isdir oa) (is_dir ch)) eqn:Ek; [|exact Hf].
+  apply alookup_In in El. unfold old_okQ in Hold. rewrite Forall_forall in Hold.
+  destruct (Hold _ El) as [Hp Hpl]. cbn [fst snd] in *.
+  split; [exact Hp|]. split; [exact Hpl|]. apply eqb_prop. exact Ek.
+Qed.
+
+Lemma bltb_total a : forall b, beqb a b = false -> bltb a b = false -> bltb b a = true.
+Proof.
+  induction a as [|x a IH]; intros [|y b] Hne Hnl; cbn [bltb beqb] in *;
+    try reflexivity; try discriminate.
+  destruct (x <? y) eqn:Exy; [discriminate|].
+  destruct (y <? x) eqn:Eyx; [reflexivity|].
+  replace (x =? y) with true in Hne by lia. cbn [andb] in Hne.
+  exact (IH _ Hne Hnl).
+Qed.
+
+Definition kv_lt {A} (a b : bytes * A) : Prop := bltb (fst a) (fst b) = true.
+
+Lemma in_ins_sorted {A} k (v : A) l x : In x (ins_sorted k v l) -> x = (k, v) \/ In x l.
+Proof.
+  induction l as [|[k' v'] r IH]; cbn [ins_sorted].
+  - intros [<-|[]]. left. reflexivity.
+  - destruct (beqb k k').
+    + intros [<-|Hin]; [left; reflexivity|right; right; exact Hin].
+    + destruct (bltb k k').
+      * intros [<-|Hin]; [left; reflexivity|right; exact Hin].
+      * intros [<-|Hin]; [right; left; reflexivity|].
+        destruct (IH Hin) as [->|Hin']; [left; reflexivity|right; right; exact Hin'].
+Qed.
+
+Lemma ins_sorted_sorted {A} k (v : A) l :
+  StronglySorted kv_lt l -> StronglySorted kv_lt (ins_sorted k v l).
+Proof.
+  induction l as [|[k' v'] r IH]; intros Hs; cbn [ins_sorted].
+  - constructor; constructor.
+  - inversion Hs as [|e0 r0 Hr Hall]; subst. destruct (beqb k k') eqn:E1.
+    + apply beqb_eq in E1. subst k'. constructor; [exact Hr|exact Hall].
+    + destruct (bltb k k') eqn:E2.
+      * constructor; [exact Hs|]. constructor; [exact E2|].
+        eapply Forall_impl; [|exact Hall]. intros e He. unfold kv_lt in *. cbn [fst] in *.
+        exact (bltb_trans _ _ _ E2 He).
+      * constructor; [exact (IH Hr)|]. apply Forall_forall. intros x Hin.
+        apply in_ins_sorted in Hin as [->|Hin].
+        -- unfold kv_lt. cbn [fst]. apply bltb_total; [exact E1|exact E2].
+        -- rewrite Forall_forall in Hall. exact (Hall _ Hin).
+Qed.
+
+(* re-inserting a binding that is already there leaves a sorted list unchanged *)
+Lemma ins_sorted_id {A} k (v : A) l :
+  StronglySorted kv_lt l -> alookup k l = Some v -> ins_sorted k v l = l.
+Proof.
+  induction l as [|[k' v'] r IH]; intros Hs Hl; cbn [ins_sorted alookup] in *; [discriminate|].
+  inversion Hs as [|e0 r0 Hr Hall]; subst. destruct (beqb k k') eqn:E1.
+  - apply beqb_eq in E1. injection Hl as <-. subst k'. reflexivity.
+  - destruct (bltb k k') eqn:E2.
+    + exfalso. apply alookup_In in Hl. rewrite Forall_forall in Hall. specialize (Hall _ Hl).
+      unfold kv_lt in Hall. cbn [fst] in Hall. rewrite (bltb_asym _ _ Hall) in E2. discriminate.
+    + rewrite (IH Hr Hl). reflexivity.
+Qed.
+
+Lemma alookup_sorted_In {A} (l : list (bytes * A)) k v :
+  StronglySorted kv_lt l -> In (k, v) l -> alookup k l = Some v.
+Proof.
+  induction l as [|[k' v'] r IH]; intros Hs Hin; [destruct Hin|].
+  inversion Hs as [|e0 r0 Hr Hall]; subst. cbn [alookup]. destruct Hin as [E|Hin].
+  - injection E as -> ->. rewrite beqb_refl. reflexivity.
+  - rewrite Forall_forall in Hall. pose proof (Hall _ Hin) as Hlt. unfold kv_lt in Hlt. cbn [fst] in Hlt.
+    rewrite beqb_sym, (bltb_neq _ _ Hlt). exact (IH Hr Hin).
+Qed.
+
+Section Generic.
+  Variable H : bytes -> bytes.
+  Variable Q : artifact -> Prop.
+  Variable MP : cache -> Prop.
+  Variable B : bytes -> Prop.
+  Hypothesis Hinj : H_inj H.
+  Hypothesis Hhas : H_has H.
+  Hypothesis Htext : H_text H.
+  Hypothesis Q_fresh : forall nm d, Q (fresh_art nm d).
+  Hypothesis Q_cs : forall a d, Q a -> Q (set_cs a d).
+  Hypothesis MP_old : forall a c old, MP c -> old_contents a c = Ok old -> old_okQ Q old.
+  Hypothesis MP_cput : forall c d b, MP c ->
+    (forall m, dec_manifest b = Some m -> Forall (fun kv => Q (snd kv)) (m_contents m)) -> MP (cput c d b).
+  Hypothesis B_dec : forall b, B b ->
+    forall m, dec_manifest b = Some m -> Forall (fun kv => Q (snd kv)) (m_contents m).
+  Hypothesis G_codec : forall m, wfQ Q m -> dec_manifest (enc_manifest m) = Some m.
+
+  Definition gPA (n : node) : Prop :=
+    forall a c st n' c' a',
+      gtree B c n -> wf_text (a_path a) -> cache_ok H c -> MP c ->
+      commit_node H a n c st = Ok (n', c', a') ->
+      MP c' /\ gtree B c' n' /\ wf_text (a_cs a') /\ art_present c' a'.
+
+  Definition gentries_A (es : list (bytes * node)) : Prop :=
+    forall nr old st c es' c1 m,
+      StronglySorted key_lt es ->
+      Forall (fun e => good_name (fst e) /\ gtree B c (snd e)) es ->
+      old_okQ Q old -> cache_ok H c -> MP c ->
+      commit_entries (commit_node H) nr old st es c = Ok (es', c1, m) ->
+      MP c1 /\
+      Forall (fun e => good_name (fst e) /\ gtree B c1 (snd e)) es' /\
+      map fst es' = map fst es /\
+      Forall (ent_okQ Q) m /\
+      StronglySorted man_key_lt m /\
+      Forall (fun kv => In (fst kv) (map fst es)) m.
+
+  Lemma gA_entries es : Forall (fun e => gPA (snd e)) es -> gentries_A es.
+  Proof.
+    intros IH. unfold gentries_A.
+    induction IH as [|[name ch] r IHch _ IHr]; intros nr old st c es' c1 m Hs Hes Hold Hc Hmp He.
+    - apply commit_entries_nil in He. injection He as -> -> ->.
+      repeat split; try constructor. exact Hmp.
+    - inversion Hs as [|e0 r0 Hsr Hlt]; subst.
+      inversion Hes as [|e0 r0 [Hgn Hch0] Hr0]; subst. cbn [fst snd] in *.
+      apply commit_entries_cons in He
+        as [(_ & es1 & Hr & ->)|(_ & _ & ch' & c0 & child' & es1 & m1 & Hch & Hr & -> & ->)].
+      + pose proof (commit_entries_cache_ok H _ Hinj _ _ _ _ _ _ _ Hc Hr) as [_ Hle].
+        destruct (IHr _ _ _ _ _ _ _ Hsr Hr0 Hold Hc Hmp Hr) as (M1 & T1 & K1 & E1 & S1 & I1).
+        split; [exact M1|]. split.
+        { constructor; [split; [exact Hgn|exact (ctree_le _ _ _ Hle Hch0)]|exact T1]. }
+        split; [cbn [map fst]; rewrite K1; reflexivity|].
+        split; [exact E1|]. split; [exact S1|].
+        eapply Forall_impl; [|exact I1]. intros kv Hin. right. exact Hin.
+      + destruct (child_of_propsQ Q old name ch Q_fresh Hold) as (Hcp & Hcpl & Hcd).
+        assert (Hwfp : wf_text (a_path (child_of old name ch)))
+          by (rewrite Hcp; exact (good_name_wf _ Hgn)).
+        destruct (IHch _ _ _ _ _ _ Hch0 Hwfp Hc Hmp Hch) as (M0 & T0 & W0 & _).
+        destruct (commit_cache_ok H Hinj _ _ _ _ _ _ _ Hc Hch) as [Hc0 Hle0].
+        pose proof (commit_entries_cache_ok H _ Hinj _ _ _ _ _ _ _ Hc0 Hr) as [_ Hle1].
+        destruct (IHr _ _ _ _ _ _ _ Hsr (Forall_ctree_le _ _ _ Hle0 Hr0) Hold Hc0 M0 Hr)
+          as (M1 & T1 & K1 & E1 & S1 & I1).
+        destruct (commit_node_flags H _ _ _ _ _ _ _ Hch) as (Fp & Fd & Fn & Fs).
+        split; [exact M1|]. split.
+        { constructor; [split; [exact Hgn|exact (ctree_le _ _ _ Hle1 T0)]|exact T1]. }
+        split; [cbn [map fst]; rewrite K1; reflexivity|].
+        assert (Hpath : a_path child' = name) by congruence.
+        split.
+        { constructor; [|exact E1]. unfold ent_okQ. cbn [fst snd]. rewrite Hpath.
+          split; [reflexivity|]. split; [exact (proj1 (proj2 Hgn))|].
+          split; [exact (good_name_wf _ Hgn)|]. split; [exact W0|].
+          destruct (commit_node_art H _ _ _ _ _ _ _ Hch) as [E|[d0 E]]; rewrite E;
+            [exact Hcpl|exact (Q_cs _ _ Hcpl)]. }
+        split.
+        { constructor; [exact S1|]. apply Forall_forall. intros kv Hin.
+          rewrite Forall_forall in I1. specialize (I1 _ Hin). apply in_map_iff in I1 as (e & Ee & Hine).
+          rewrite Forall_forall in Hlt. specialize (Hlt _ Hine).
+          unfold man_key_lt, key_lt in *. cbn [fst] in *. rewrite Hpath, <- Ee. exact Hlt. }
+        constructor; [left; cbn [fst]; symmetry; exact Hpath|].
+        eapply Forall_impl; [|exact I1]. intros kv Hin. right. exact Hin.
+  Qed.
+
+  Lemma gwf_written p m :
+    wf_text p -> Forall (ent_okQ Q) m -> StronglySorted man_key_lt m -> wfQ Q (mkMan p m).
+  Proof.
+    intros Hp He Hs. unfold wfQ. cbn [m_path m_contents].
+    split; [exact Hp|]. split; [exact Hs|exact He].
+  Qed.
+
+  Lemma gcommit_A n : gPA n.
+  Proof.
+    induction n as [b|d|t| |es IH] using node_ind2; intros a c st n' c' a' Ht Hwp Hc Hmp Hok.
+    1-4: rewrite commit_node_leaf in Hok by reflexivity;
+         destruct (a_isdir a) eqn:Eisd; [discriminate|];
+         assert (Hap : forall a0, a_isdir a0 = false -> forall c0, art_present c0 a0)
+           by (intros a0 E0 c0 E1; congruence);
+         apply commit_file_inv in Hok
+           as [(Hq & -> & -> & ->)|[(_ & b' & Eb & -> & [(_ & -> & ->)|(_ & -> & ->)])
+                                   |(d' & o' & Ed & Hg' & -> & -> & ->)]];
+         try discriminate; try (inversion Ht; fail).
+    - (* File, qmatch: impossible *) apply qmatch_inv in Hq as (_ & Hn & _). discriminate.
+    - (* File, skip *)
+      repeat split; try assumption; try apply (proj1 (Htext _)); try apply (proj2 (Htext _)).
+      apply Hap. exact Eisd.
+    - (* File, stored *)
+      injection Eb as <-. inversion Ht as [b0 Htame| |]; subst.
+      split.
+      { apply MP_cput; [exact Hmp|]. exact (B_dec _ Htame). }
+      split.
+      { destruct st.
+        - apply (ct_link _ _ (mkObj b cache_perms)). rewrite cget_cput, beqb_refl. reflexivity.
+        - constructor. exact Htame. }
+      split; [exact (Htext _)|]. apply Hap. exact Eisd.
+    - (* LinkC, qmatch *)
+      apply qmatch_inv in Hq as (_ & _ & o & Hg).
+      split; [exact Hmp|]. split; [exact Ht|]. split; [|apply Hap; exact Eisd].
+      destruct (Hc _ _ Hg) as [-> _]. exact (Htext _).
+    - (* LinkC, adopted *)
+      injection Ed as <-.
+      split; [exact Hmp|]. split; [exact Ht|]. split; [|apply Hap; exact Eisd].
+      cbn [set_cs a_cs]. destruct (Hc _ _ Hg') as [-> _]. exact (Htext _).
+    - (* Dir *)
+      apply commit_dir_inv in Hok as (Eisd & old & es' & c1 & m & Hold & He & -> & -> & ->).
+      inversion Ht as [| |es0 Hs Hes]; subst.
+      pose proof (MP_old _ _ _ Hmp Hold) as Hoo.
+      destruct (gA_entries es IH _ _ _ _ _ _ _ Hs Hes Hoo Hc Hmp He) as (M1 & T1 & K1 & E1 & S1 & _).
+      pose proof (commit_entries_cache_ok H _ Hinj _ _ _ _ _ _ _ Hc He) as [Hc1 _].
+      set (M := mkMan (a_path a) m).
+      assert (Hdec : dec_manifest (enc_manifest M) = Some M)
+        by (apply G_codec; apply gwf_written; assumption).
+      assert (Hle : cache_le c1 (cput c1 (H (enc_manifest M)) (enc_manifest M)))
+        by (apply cput_le; assumption).
+      split.
+      { apply MP_cput; [exact M1|]. intros m0 Hm0. rewrite Hdec in Hm0. injection Hm0 as <-.
+        cbn [m_contents M]. eapply Forall_impl; [|exact E1]. intros kv Hk. exact (proj2 (proj2 (proj2 (proj2 Hk)))). }
+      split.
+      { constructor.
+        - apply sorted_keys. rewrite K1. apply sorted_keys. exact Hs.
+        - exact (Forall_ctree_le _ _ _ Hle T1). }
+      split; [exact (Htext _)|].
+      intros _. exists (mkObj (enc_manifest M) cache_perms), M. cbn [set_cs a_cs o_data].
+      split; [rewrite cget_cput, beqb_refl; reflexivity|exact Hdec].
+  Qed.
+
+  Lemma gA_entries' es : gentries_A es.
+  Proof. apply gA_entries. apply Forall_forall. intros e _. apply gcommit_A. Qed.
+
+
+  (* any property of caches that [cput] preserves is preserved by commit *)
+  Lemma commit_cache_pres (R : cache -> Prop) :
+    (forall c d b, R c -> R (cput c d b)) ->
+    forall n a c st n' c' a', R c -> commit_node H a n c st = Ok (n', c', a') -> R c'.
+  Proof.
+    intros HR n.
+    induction n as [b|d|t| |es IH] using node_ind2; intros a c st n' c' a' Hc Hok.
+    1-4: rewrite commit_node_leaf in Hok by reflexivity;
+         (destruct (a_isdir a); [discriminate|]);
+         apply commit_file_inv in Hok
+           as [(_ & _ & -> & _)|[(_ & b' & _ & _ & [(_ & _ & ->)|(_ & -> & _)])
+                               |(d' & o' & _ & _ & _ & -> & _)]];
+         try exact Hc; apply HR; exact Hc.
+    apply commit_dir_inv in Hok as (_ & old & es' & c1 & m & _ & He & _ & -> & _).
+    apply HR. clear a'. revert c es' c1 m Hc He.
+    induction IH as [|[name ch] r IHch _ IHr]; intros c es' c1 m Hc He.
+    - apply commit_entries_nil in He. injection He as _ <- _. exact Hc.
+    - apply commit_entries_cons in He
+        as [(_ & es1 & Hr & _)|(_ & _ & ch' & c0 & child' & es1 & m1 & Hch & Hr & _ & _)].
+      + exact (IHr _ _ _ _ Hc Hr).
+      + exact (IHr _ _ _ _ (IHch _ _ _ _ _ _ Hc Hch) Hr).
+  Qed.
+
+  Lemma commit_sorted n a c st n' c' a' :
+    cache_sorted c -> commit_node H a n c st = Ok (n', c', a') -> cache_sorted c'.
+  Proof.
+    apply (commit_cache_pres cache_sorted). intros c0 d b Hs. unfold cput.
+    exact (ins_sorted_sorted d (mkObj b cache_perms) c0 Hs).
+  Qed.
+
+  Lemma commit_node_isdir a n c st n' c' a' :
+    commit_node H a n c st = Ok (n', c', a') -> is_dir n' = is_dir n.
+  Proof.
+    destruct (is_dir n) eqn:Ed.
+    - destruct n as [| | |es|]; try discriminate. intros Hok.
+      apply commit_dir_inv in Hok as (_ & old & es' & c1 & m & _ & _ & -> & _). reflexivity.
+    - rewrite (commit_node_leaf _ _ _ _ _ Ed). destruct (a_isdir a); [discriminate|].
+      intros Hok.
+      apply commit_file_inv in Hok
+        as [(_ & -> & _)|[(_ & b & -> & _ & [(_ & -> & _)|(_ & _ & ->)])|(d & o & _ & _ & -> & _)]];
+        try exact Ed; try reflexivity. destruct st; reflexivity.
+  Qed.
+
+  (* storing again an object that is there *)
+  Lemma cput_id c b o :
+    cache_ok H c -> cache_sorted c -> cget c (H b) = Some o -> o_data o = b -> cput c (H b) b = c.
+  Proof.
+    intros Hc Hs Hg Hd. unfold cput. apply ins_sorted_id; [exact Hs|].
+    destruct (Hc _ _ Hg) as [_ Hm]. destruct o as [d0 m0]. cbn [o_data o_mode] in *. subst. exact Hg.
+  Qed.
+
+  Definition gPI (n : node) : Prop :=
+    forall a c st n' c' a',
+      gtree B c n -> wf_text (a_path a) -> cache_ok H c -> MP c ->
+      commit_node H a n c st = Ok (n', c', a') ->
+      forall c2, cache_le c' c2 -> cache_ok H c2 -> cache_sorted c2 ->
+                 commit_node H a' n' c2 st = Ok (n', c2, a').
+
+  Lemma gI_entries es :
+    Forall (fun e => gPI (snd e)) es ->
+    forall nr old st c es' c1 m,
+      StronglySorted key_lt es ->
+      Forall (fun e => good_name (fst e) /\ gtree B c (snd e)) es ->
+      old_okQ Q old -> cache_ok H c -> MP c ->
+      commit_entries (commit_node H) nr old st es c = Ok (es', c1, m) ->
+      forall c2 old2, cache_le c1 c2 -> cache_ok H c2 -> cache_sorted c2 ->
+        (forall kv, In kv m -> alookup (fst kv) old2 = Some (snd kv)) ->
+        commit_entries (commit_node H) nr old2 st es' c2 = Ok (es', c2, m).
+  Proof.
+    intros IH.
+    induction IH as [|[name ch] r IHch _ IHr];
+      intros nr old st c es' c1 m Hs Hes Hold Hc Hmp He c2 old2 Hle2 Hc2 Hs2 Hlk.
+    - apply commit_entries_nil in He. injection He as -> _ ->. reflexivity.
+    - inversion Hs as [|e0 r0 Hsr Hlt]; subst.
+      inversion Hes as [|e0 r0 [Hgn Hch0] Hr0]; subst. cbn [fst snd] in *.
+      apply commit_entries_cons in He
+        as [(Esk & es1 & Hr & ->)|(Esk & _ & ch' & c0 & child' & es1 & m1 & Hch & Hr & -> & ->)].
+      + cbn [commit_entries]. rewrite Esk.
+        rewrite (IHr _ _ _ _ _ _ _ Hsr Hr0 Hold Hc Hmp Hr c2 old2 Hle2 Hc2 Hs2 Hlk). reflexivity.
+      + destruct (child_of_propsQ Q old name ch Q_fresh Hold) as (Hcp & _ & Hcd).
+        assert (Hwfp : wf_text (a_path (child_of old name ch)))
+          by (rewrite Hcp; exact (good_name_wf _ Hgn)).
+        destruct (gcommit_A _ _ _ _ _ _ _ Hch0 Hwfp Hc Hmp Hch) as (M0 & _).
+        destruct (commit_cache_ok H Hinj _ _ _ _ _ _ _ Hc Hch) as [Hc0 Hle0].
+        pose proof (commit_entries_cache_ok H _ Hinj _ _ _ _ _ _ _ Hc0 Hr) as [_ Hle1].
+        destruct (commit_node_flags H _ _ _ _ _ _ _ Hch) as (Fp & Fd & _ & _).
+        pose proof (commit_node_isdir _ _ _ _ _ _ _ Hch) as Eid.
+        cbn [commit_entries]. rewrite Eid, Esk, (proj1 Hgn). cbn [negb].
+        assert (Ech : child_of old2 name ch' = child').
+        { assert (Hpath : a_path child' = name) by congruence.
+          pose proof (Hlk (a_path child', child') (or_introl eq_refl)) as Hl.
+          cbn [fst snd] in Hl. rewrite Hpath in Hl.
+          unfold child_of. rewrite Hl, Fd, Hcd, Eid, eqb_reflx. reflexivity. }
+        rewrite Ech.
+        rewrite (IHch _ _ _ _ _ _ Hch0 Hwfp Hc Hmp Hch c2 (cache_le_trans _ _ _ Hle1 Hle2) Hc2 Hs2).
+        rewrite (IHr _ _ _ _ _ _ _ Hsr (Forall_ctree_le _ _ _ Hle0 Hr0) Hold Hc0 M0 Hr c2 old2 Hle2 Hc2 Hs2).
+        * reflexivity.
+        * intros kv Hin. apply Hlk. right. exact Hin.
+  Qed.
+
+  Lemma gcommit_I n : gPI n.
+  Proof.
+    induction n as [b|d|t| |es IH] using node_ind2;
+      intros a c st n' c' a' Ht Hwp Hc Hmp Hok c2 Hle2 Hc2 Hs2.
+    1-4: rewrite commit_node_leaf in Hok by reflexivity;
+         destruct (a_isdir a) eqn:Eisd; [discriminate|];
+         apply commit_file_inv in Hok
+           as [(Hq & -> & -> & ->)|[(_ & b' & Eb & -> & [(Esk & -> & ->)|(Esk & -> & ->)])
+                                   |(d' & o' & Ed & Hg' & -> & -> & ->)]];
+         try discriminate; try (inversion Ht; fail).
+    - apply qmatch_inv in Hq as (_ & Hn & _). discriminate.
+    - (* File, skip *)
+      injection Eb as <-. rewrite commit_node_leaf by reflexivity. cbn [set_cs a_isdir]. rewrite Eisd.
+      unfold commit_file. unfold qmatch at 1. rewrite andb_false_r. cbn [set_cs a_skip]. rewrite Esk.
+      reflexivity.
+    - (* File, stored *)
+      injection Eb as <-.
+      assert (Hg2 : exists o2, cget c2 (H b) = Some o2 /\ o_data o2 = b).
+      { destruct (Hle2 (H b) (mkObj b cache_perms)) as (o2 & Hg2 & E2).
+        - rewrite cget_cput, beqb_refl. reflexivity.
+        - exists o2. split; [exact Hg2|exact E2]. }
+      destruct Hg2 as (o2 & Hg2 & E2).
+      rewrite commit_node_leaf by (destruct st; reflexivity). cbn [set_cs a_isdir]. rewrite Eisd.
+      unfold commit_file. destruct st.
+      + unfold qmatch, in_cache. cbn [set_cs a_cs]. rewrite (Hhas b), Hg2, beqb_refl. reflexivity.
+      + unfold qmatch at 1. rewrite andb_false_r. cbn [set_cs a_skip a_cs]. rewrite Esk.
+        rewrite (cput_id _ _ _ Hc2 Hs2 Hg2 E2). reflexivity.
+    - (* LinkC, qmatch *)
+      apply qmatch_inv in Hq as (Hh & Hn & o & Hg). injection Hn as ->.
+      destruct (Hle2 _ _ Hg) as (o2 & Hg2 & _).
+      rewrite commit_node_leaf by reflexivity. rewrite Eisd. unfold commit_file.
+      unfold qmatch, in_cache. rewrite Hh, Hg2, beqb_refl. reflexivity.
+    - (* LinkC, adopted *)
+      injection Ed as <-. destruct (Hle2 _ _ Hg') as (o2 & Hg2 & _).
+      rewrite commit_node_leaf by reflexivity. cbn [set_cs a_isdir]. rewrite Eisd. unfold commit_file.
+      unfold qmatch, in_cache. cbn [set_cs a_cs]. rewrite Hg2, beqb_refl.
+      destruct (Hc _ _ Hg') as [-> _]. rewrite (Hhas _). reflexivity.
+    - (* Dir *)
+      apply commit_dir_inv in Hok as (Eisd & old & es' & c1 & m & Hold & He & -> & -> & ->).
+      inversion Ht as [| |es0 Hs Hes]; subst.
+      pose proof (MP_old _ _ _ Hmp Hold) as Hoo.
+      destruct (gA_entries' es _ _ _ _ _ _ _ Hs Hes Hoo Hc Hmp He)
+        as (M1 & T1 & K1 & E1 & S1 & _).
+      pose proof (commit_entries_cache_ok H _ Hinj _ _ _ _ _ _ _ Hc He) as [Hc1 _].
+      set (M := mkMan (a_path a) m) in *.
+      assert (Hdec : dec_manifest (enc_manifest M) = Some M)
+        by (apply G_codec; apply gwf_written; assumption).
+      assert (Hle1 : cache_le c1 (cput c1 (H (enc_manifest M)) (enc_manifest M)))
+        by (apply cput_le; assumption).
+      destruct (Hle2 (H (enc_manifest M)) (mkObj (enc_manifest M) cache_perms)) as (o2 & Hg2 & E2);
+        [rewrite cget_cput, beqb_refl; reflexivity|]. cbn [o_data] in E2.
+      rewrite commit_node_dir. cbn [set_cs a_isdir a_norec a_path a_cs]. rewrite Eisd.
+      unfold old_contents. cbn [a_cs set_cs]. rewrite (Hhas _), Hg2, E2, Hdec. cbn [m_contents M].
+      rewrite (gI_entries es IH _ _ _ _ _ _ _ Hs Hes Hoo Hc Hmp He c2 m
+                         (cache_le_trans _ _ _ Hle1 Hle2) Hc2 Hs2).
+      + cbv zeta. fold M. rewrite (cput_id _ _ _ Hc2 Hs2 Hg2 E2). reflexivity.
+      + intros [k v] Hin. cbn [fst snd]. apply alookup_sorted_In; [exact S1|exact Hin].
+  Qed.
+
+
+  Theorem gcommit_idem :
+    forall a n c st n' c' a',
+      gtree B c n -> wf_text (a_path a) -> cache_ok H c -> MP c -> cache_sorted c ->
+      commit_node H a n c st = Ok (n', c', a') ->
+      commit_node H a' n' c' st = Ok (n', c', a').
+  Proof.
+    intros a n c st n' c' a' Ht Hwp Hc Hmp Hs Hok.
+    apply (gcommit_I n _ _ _ _ _ _ Ht Hwp Hc Hmp Hok c' (cache_le_refl c')).
+    - exact (proj1 (commit_cache_ok H Hinj _ _ _ _ _ _ _ Hc Hok)).
+    - exact (commit_sorted _ _ _ _ _ _ _ Hs Hok).
+  Qed.
+End Generic.
+
 Section WellFormed.
   Variable H : bytes -> bytes.
   Hypothesis Hinj : H_inj H.
   Hypothesis Htext : H_text H.
   Hypothesis Hcodec : codec_ok.
 
+  Lemma plain_fresh nm d : plain_child (fresh_art nm d).
+  Proof. split; reflexivity. Qed.
+  Lemma plain_set_cs a d : plain_child a -> plain_child (set_cs a d).
+  Proof. intros [H1 H2]. split; assumption. Qed.
+  Lemma tame_dec b : blob_tame b ->
+    forall m, dec_manifest b = Some m -> Forall (fun kv => plain_child (snd kv)) (m_contents m).
+  Proof.
+    intros Ht m Hm. specialize (Ht m Hm). eapply Forall_impl; [|exact Ht]. intros kv [Hk _]. exact Hk.
+  Qed.
+  Lemma codec_plain m : wfQ plain_child m -> dec_manifest (enc_manifest m) = Some m.
+  Proof. intros Hw. apply Hcodec. exact Hw. Qed.
+
   (* cache_ok and man_plain are preserved; the result is again a ctree; the recorded checksum is
      text; a directory artifact's manifest is in the cache and decodes *)
-  Definition art_present (c : cache) (a : artifact) : Prop :=
-    a_isdir a = true -> exists o m, cget c (a_cs a) = Some o /\ dec_manifest (o_data o) = Some m.
-
   Definition PA (n : node) : Prop :=
     forall a c st n' c' a',
       ctree c n -> wf_text (a_path a) -> cache_ok H c -> man_plain c ->
@@ -703,116 +1152,21 @@ Section WellFormed.
       StronglySorted man_key_lt m /\
       Forall (fun kv => In (fst kv) (map fst es)) m.
 
-  Lemma A_entries es : Forall (fun e => PA (snd e)) es -> entries_A es.
+  Lemma commit_A n : PA n.
   Proof.
-    intros IH. unfold entries_A.
-    induction IH as [|[name ch] r IHch _ IHr]; intros nr old st c es' c1 m Hs Hes Hold Hc Hmp He.
-    - apply commit_entries_nil in He. injection He as -> -> ->.
-      repeat split; try constructor. exact Hmp.
-    - inversion Hs as [|e0 r0 Hsr Hlt]; subst.
-      inversion Hes as [|e0 r0 [Hgn Hch0] Hr0]; subst. cbn [fst snd] in *.
-      apply commit_entries_cons in He
-        as [(_ & es1 & Hr & ->)|(_ & _ & ch' & c0 & child' & es1 & m1 & Hch & Hr & -> & ->)].
-      + pose proof (commit_entries_cache_ok H _ Hinj _ _ _ _ _ _ _ Hc Hr) as [_ Hle].
-        destruct (IHr _ _ _ _ _ _ _ Hsr Hr0 Hold Hc Hmp Hr) as (M1 & T1 & K1 & E1 & S1 & I1).
-        split; [exact M1|]. split.
-        { constructor; [split; [exact Hgn|exact (ctree_le _ _ _ Hle Hch0)]|exact T1]. }
-        split; [cbn [map fst]; rewrite K1; reflexivity|].
-        split; [exact E1|]. split; [exact S1|].
-        eapply Forall_impl; [|exact I1]. intros kv Hin. right. exact Hin.
-      + destruct (child_of_props old name ch Hold) as (Hcp & Hcpl & Hcd).
-        assert (Hwfp : wf_text (a_path (child_of old name ch)))
-          by (rewrite Hcp; exact (good_name_wf _ Hgn)).
-        destruct (IHch _ _ _ _ _ _ Hch0 Hwfp Hc Hmp Hch) as (M0 & T0 & W0 & _).
-        destruct (commit_cache_ok H Hinj _ _ _ _ _ _ _ Hc Hch) as [Hc0 Hle0].
-        pose proof (commit_entries_cache_ok H _ Hinj _ _ _ _ _ _ _ Hc0 Hr) as [_ Hle1].
-        destruct (IHr _ _ _ _ _ _ _ Hsr (Forall_ctree_le _ _ _ Hle0 Hr0) Hold Hc0 M0 Hr)
-          as (M1 & T1 & K1 & E1 & S1 & I1).
-        destruct (commit_node_flags H _ _ _ _ _ _ _ Hch) as (Fp & Fd & Fn & Fs).
-        split; [exact M1|]. split.
-        { constructor; [split; [exact Hgn|exact (ctree_le _ _ _ Hle1 T0)]|exact T1]. }
-        split; [cbn [map fst]; rewrite K1; reflexivity|].
-        assert (Hpath : a_path child' = name) by congruence.
-        split.
-        { constructor; [|exact E1]. unfold ent_ok. cbn [fst snd]. rewrite Hpath.
-          split; [reflexivity|]. split; [exact (proj1 (proj2 Hgn))|].
-          split; [exact (good_name_wf _ Hgn)|]. split; [exact W0|].
-          destruct Hcpl as [P1 P2]. split; congruence. }
-        split.
-        { constructor; [exact S1|]. apply Forall_forall. intros kv Hin.
-          rewrite Forall_forall in I1. specialize (I1 _ Hin). apply in_map_iff in I1 as (e & Ee & Hine).
-          rewrite Forall_forall in Hlt. specialize (Hlt _ Hine).
-          unfold man_key_lt, key_lt in *. cbn [fst] in *. rewrite Hpath, <- Ee. exact Hlt. }
-        constructor; [left; cbn [fst]; symmetry; exact Hpath|].
-        eapply Forall_impl; [|exact I1]. intros kv Hin. right. exact Hin.
+    exact (gcommit_A H plain_child man_plain blob_tame Hinj Htext plain_fresh plain_set_cs
+                     old_contents_ok man_plain_cput tame_dec codec_plain n).
+  Qed.
+
+  Lemma A_entries' es : entries_A es.
+  Proof.
+    exact (gA_entries' H plain_child man_plain blob_tame Hinj Htext plain_fresh plain_set_cs
+                       old_contents_ok man_plain_cput tame_dec codec_plain es).
   Qed.
 
   Lemma wf_written p m :
     wf_text p -> Forall ent_ok m -> StronglySorted man_key_lt m -> wf_manifest (mkMan p m).
-  Proof.
-    intros Hp He Hs. unfold wf_manifest. cbn [m_path m_contents].
-    split; [exact Hp|]. split; [exact Hs|exact He].
-  Qed.
-
-  Lemma commit_A n : PA n.
-  Proof.
-    induction n as [b|d|t| |es IH] using node_ind2; intros a c st n' c' a' Ht Hwp Hc Hmp Hok.
-    1-4: rewrite commit_node_leaf in Hok by reflexivity;
-         destruct (a_isdir a) eqn:Eisd; [discriminate|];
-         assert (Hap : forall a0, a_isdir a0 = false -> forall c0, art_present c0 a0)
-           by (intros a0 E0 c0 E1; congruence);
-         apply commit_file_inv in Hok
-           as [(Hq & -> & -> & ->)|[(_ & b' & Eb & -> & [(_ & -> & ->)|(_ & -> & ->)])
-                                   |(d' & o' & Ed & Hg' & -> & -> & ->)]];
-         try discriminate; try (inversion Ht; fail).
-    - (* File, qmatch: impossible *) apply qmatch_inv in Hq as (_ & Hn & _). discriminate.
-    - (* File, skip *)
-      repeat split; try assumption; try apply (proj1 (Htext _)); try apply (proj2 (Htext _)).
-      apply Hap. exact Eisd.
-    - (* File, stored *)
-      injection Eb as <-. inversion Ht as [b0 Htame| |]; subst.
-      split.
-      { apply man_plain_cput; [exact Hmp|]. intros m Hm. specialize (Htame m Hm).
-        eapply Forall_impl; [|exact Htame]. intros kv [Hk _]. exact Hk. }
-      split.
-      { destruct st.
-        - apply (ct_link _ _ (mkObj b cache_perms)). rewrite cget_cput, beqb_refl. reflexivity.
-        - constructor. exact Htame. }
-      split; [exact (Htext _)|]. apply Hap. exact Eisd.
-    - (* LinkC, qmatch *)
-      apply qmatch_inv in Hq as (_ & _ & o & Hg).
-      split; [exact Hmp|]. split; [exact Ht|]. split; [|apply Hap; exact Eisd].
-      destruct (Hc _ _ Hg) as [-> _]. exact (Htext _).
-    - (* LinkC, adopted *)
-      injection Ed as <-.
-      split; [exact Hmp|]. split; [exact Ht|]. split; [|apply Hap; exact Eisd].
-      cbn [set_cs a_cs]. destruct (Hc _ _ Hg') as [-> _]. exact (Htext _).
-    - (* Dir *)
-      apply commit_dir_inv in Hok as (Eisd & old & es' & c1 & m & Hold & He & -> & -> & ->).
-      inversion Ht as [| |es0 Hs Hes]; subst.
-      pose proof (old_contents_ok _ _ _ Hmp Hold) as Hoo.
-      destruct (A_entries es IH _ _ _ _ _ _ _ Hs Hes Hoo Hc Hmp He) as (M1 & T1 & K1 & E1 & S1 & _).
-      pose proof (commit_entries_cache_ok H _ Hinj _ _ _ _ _ _ _ Hc He) as [Hc1 _].
-      set (M := mkMan (a_path a) m).
-      assert (Hdec : dec_manifest (enc_manifest M) = Some M)
-        by (apply Hcodec; apply wf_written; assumption).
-      assert (Hle : cache_le c1 (cput c1 (H (enc_manifest M)) (enc_manifest M)))
-        by (apply cput_le; assumption).
-      split.
-      { apply man_plain_cput; [exact M1|]. intros m0 Hm0. rewrite Hdec in Hm0. injection Hm0 as <-.
-        cbn [m_contents M]. eapply Forall_impl; [|exact E1]. intros kv Hk. exact (proj2 (proj2 (proj2 (proj2 Hk)))). }
-      split.
-      { constructor.
-        - apply sorted_keys. rewrite K1. apply sorted_keys. exact Hs.
-        - exact (Forall_ctree_le _ _ _ Hle T1). }
-      split; [exact (Htext _)|].
-      intros _. exists (mkObj (enc_manifest M) cache_perms), M. cbn [set_cs a_cs o_data].
-      split; [rewrite cget_cput, beqb_refl; reflexivity|exact Hdec].
-  Qed.
-
-  Lemma A_entries' es : entries_A es.
-  Proof. apply A_entries. apply Forall_forall. intros e _. apply commit_A. Qed.
-
+  Proof. exact (gwf_written plain_child p m). Qed.
 End WellFormed.
 
 (* ------------------------------------------------------------------------------------------ *)
@@ -1229,70 +1583,6 @@ Print Assumptions commit_ok_tame.
 (* C15: committing again changes nothing                                                       *)
 (* ------------------------------------------------------------------------------------------ *)
 
-Lemma bltb_total a : forall b, beqb a b = false -> bltb a b = false -> bltb b a = true.
-Proof.
-  induction a as [|x a IH]; intros [|y b] Hne Hnl; cbn [bltb beqb] in *;
-    try reflexivity; try discriminate.
-  destruct (x <? y) eqn:Exy; [discriminate|].
-  destruct (y <? x) eqn:Eyx; [reflexivity|].
-  replace (x =? y) with true in Hne by lia. cbn [andb] in Hne.
-  exact (IH _ Hne Hnl).
-Qed.
-
-Definition kv_lt {A} (a b : bytes * A) : Prop := bltb (fst a) (fst b) = true.
-
-Lemma in_ins_sorted {A} k (v : A) l x : In x (ins_sorted k v l) -> x = (k, v) \/ In x l.
-Proof.
-  induction l as [|[k' v'] r IH]; cbn [ins_sorted].
-  - intros [<-|[]]. left. reflexivity.
-  - destruct (beqb k k').
-    + intros [<-|Hin]; [left; reflexivity|right; right; exact Hin].
-    + destruct (bltb k k').
-      * intros [<-|Hin]; [left; reflexivity|right; exact Hin].
-      * intros [<-|Hin]; [right; left; reflexivity|].
-        destruct (IH Hin) as [->|Hin']; [left; reflexivity|right; right; exact Hin'].
-Qed.
-
-Lemma ins_sorted_sorted {A} k (v : A) l :
-  StronglySorted kv_lt l -> StronglySorted kv_lt (ins_sorted k v l).
-Proof.
-  induction l as [|[k' v'] r IH]; intros Hs; cbn [ins_sorted].
-  - constructor; constructor.
-  - inversion Hs as [|e0 r0 Hr Hall]; subst. destruct (beqb k k') eqn:E1.
-    + apply beqb_eq in E1. subst k'. constructor; [exact Hr|exact Hall].
-    + destruct (bltb k k') eqn:E2.
-      * constructor; [exact Hs|]. constructor; [exact E2|].
-        eapply Forall_impl; [|exact Hall]. intros e He. unfold kv_lt in *. cbn [fst] in *.
-        exact (bltb_trans _ _ _ E2 He).
-      * constructor; [exact (IH Hr)|]. apply Forall_forall. intros x Hin.
-        apply in_ins_sorted in Hin as [->|Hin].
-        -- unfold kv_lt. cbn [fst]. apply bltb_total; [exact E1|exact E2].
-        -- rewrite Forall_forall in Hall. exact (Hall _ Hin).
-Qed.
-
-(* re-inserting a binding that is already there leaves a sorted list unchanged *)
-Lemma ins_sorted_id {A} k (v : A) l :
-  StronglySorted kv_lt l -> alookup k l = Some v -> ins_sorted k v l = l.
-Proof.
-  induction l as [|[k' v'] r IH]; intros Hs Hl; cbn [ins_sorted alookup] in *; [discriminate|].
-  inversion Hs as [|e0 r0 Hr Hall]; subst. destruct (beqb k k') eqn:E1.
-  - apply beqb_eq in E1. injection Hl as <-. subst k'. reflexivity.
-  - destruct (bltb k k') eqn:E2.
-    + exfalso. apply alookup_In in Hl. rewrite Forall_forall in Hall. specialize (Hall _ Hl).
-      unfold kv_lt in Hall. cbn [fst] in Hall. rewrite (bltb_asym _ _ Hall) in E2. discriminate.
-    + rewrite (IH Hr Hl). reflexivity.
-Qed.
-
-Lemma alookup_sorted_In {A} (l : list (bytes * A)) k v :
-  StronglySorted kv_lt l -> In (k, v) l -> alookup k l = Some v.
-Proof.
-  induction l as [|[k' v'] r IH]; intros Hs Hin; [destruct Hin|].
-  inversion Hs as [|e0 r0 Hr Hall]; subst. cbn [alookup]. destruct Hin as [E|Hin].
-  - injection E as -> ->. rewrite beqb_refl. reflexivity.
-  - rewrite Forall_forall in Hall. pose proof (Hall _ Hin) as Hlt. unfold kv_lt in Hlt. cbn [fst] in Hlt.
-    rewrite beqb_sym, (bltb_neq _ _ Hlt). exact (IH Hr Hin).
-Qed.
-
 Section Idem.
   Variable H : bytes -> bytes.
   Hypothesis Hinj : H_inj H.
@@ -1300,178 +1590,16 @@ Section Idem.
   Hypothesis Htext : H_text H.
   Hypothesis Hcodec : codec_ok.
 
-  (* any property of caches that [cput] preserves is preserved by commit *)
-  Lemma commit_cache_pres (R : cache -> Prop) :
-    (forall c d b, R c -> R (cput c d b)) ->
-    forall n a c st n' c' a', R c -> commit_node H a n c st = Ok (n', c', a') -> R c'.
-  Proof.
-    intros HR n.
-    induction n as [b|d|t| |es IH] using node_ind2; intros a c st n' c' a' Hc Hok.
-    1-4: rewrite commit_node_leaf in Hok by reflexivity;
-         (destruct (a_isdir a); [discriminate|]);
-         apply commit_file_inv in Hok
-           as [(_ & _ & -> & _)|[(_ & b' & _ & _ & [(_ & _ & ->)|(_ & -> & _)])
-                               |(d' & o' & _ & _ & _ & -> & _)]];
-         try exact Hc; apply HR; exact Hc.
-    apply commit_dir_inv in Hok as (_ & old & es' & c1 & m & _ & He & _ & -> & _).
-    apply HR. clear a'. revert c es' c1 m Hc He.
-    induction IH as [|[name ch] r IHch _ IHr]; intros c es' c1 m Hc He.
-    - apply commit_entries_nil in He. injection He as _ <- _. exact Hc.
-    - apply commit_entries_cons in He
-        as [(_ & es1 & Hr & _)|(_ & _ & ch' & c0 & child' & es1 & m1 & Hch & Hr & _ & _)].
-      + exact (IHr _ _ _ _ Hc Hr).
-      + exact (IHr _ _ _ _ (IHch _ _ _ _ _ _ Hc Hch) Hr).
-  Qed.
-
-  Lemma commit_sorted n a c st n' c' a' :
-    cache_sorted c -> commit_node H a n c st = Ok (n', c', a') -> cache_sorted c'.
-  Proof.
-    apply (commit_cache_pres cache_sorted). intros c0 d b Hs. unfold cput.
-    exact (ins_sorted_sorted d (mkObj b cache_perms) c0 Hs).
-  Qed.
-
-  Lemma commit_node_isdir a n c st n' c' a' :
-    commit_node H a n c st = Ok (n', c', a') -> is_dir n' = is_dir n.
-  Proof.
-    destruct (is_dir n) eqn:Ed.
-    - destruct n as [| | |es|]; try discriminate. intros Hok.
-      apply commit_dir_inv in Hok as (_ & old & es' & c1 & m & _ & _ & -> & _). reflexivity.
-    - rewrite (commit_node_leaf _ _ _ _ _ Ed). destruct (a_isdir a); [discriminate|].
-      intros Hok.
-      apply commit_file_inv in Hok
-        as [(_ & -> & _)|[(_ & b & -> & _ & [(_ & -> & _)|(_ & _ & ->)])|(d & o & _ & _ & -> & _)]];
-        try exact Ed; try reflexivity. destruct st; reflexivity.
-  Qed.
-
-  (* storing again an object that is there *)
-  Lemma cput_id c b o :
-    cache_ok H c -> cache_sorted c -> cget c (H b) = Some o -> o_data o = b -> cput c (H b) b = c.
-  Proof.
-    intros Hc Hs Hg Hd. unfold cput. apply ins_sorted_id; [exact Hs|].
-    destruct (Hc _ _ Hg) as [_ Hm]. destruct o as [d0 m0]. cbn [o_data o_mode] in *. subst. exact Hg.
-  Qed.
-
-  Definition PI (n : node) : Prop :=
-    forall a c st n' c' a',
-      ctree c n -> wf_text (a_path a) -> cache_ok H c -> man_plain c ->
-      commit_node H a n c st = Ok (n', c', a') ->
-      forall c2, cache_le c' c2 -> cache_ok H c2 -> cache_sorted c2 ->
-                 commit_node H a' n' c2 st = Ok (n', c2, a').
-
-  Lemma I_entries es :
-    Forall (fun e => PI (snd e)) es ->
-    forall nr old st c es' c1 m,
-      StronglySorted key_lt es ->
-      Forall (fun e => good_name (fst e) /\ ctree c (snd e)) es ->
-      old_ok old -> cache_ok H c -> man_plain c ->
-      commit_entries (commit_node H) nr old st es c = Ok (es', c1, m) ->
-      forall c2 old2, cache_le c1 c2 -> cache_ok H c2 -> cache_sorted c2 ->
-        (forall kv, In kv m -> alookup (fst kv) old2 = Some (snd kv)) ->
-        commit_entries (commit_node H) nr old2 st es' c2 = Ok (es', c2, m).
-  Proof.
-    intros IH.
-    induction IH as [|[name ch] r IHch _ IHr];
-      intros nr old st c es' c1 m Hs Hes Hold Hc Hmp He c2 old2 Hle2 Hc2 Hs2 Hlk.
-    - apply commit_entries_nil in He. injection He as -> _ ->. reflexivity.
-    - inversion Hs as [|e0 r0 Hsr Hlt]; subst.
-      inversion Hes as [|e0 r0 [Hgn Hch0] Hr0]; subst. cbn [fst snd] in *.
-      apply commit_entries_cons in He
-        as [(Esk & es1 & Hr & ->)|(Esk & _ & ch' & c0 & child' & es1 & m1 & Hch & Hr & -> & ->)].
-      + cbn [commit_entries]. rewrite Esk.
-        rewrite (IHr _ _ _ _ _ _ _ Hsr Hr0 Hold Hc Hmp Hr c2 old2 Hle2 Hc2 Hs2 Hlk). reflexivity.
-      + destruct (child_of_props old name ch Hold) as (Hcp & _ & Hcd).
-        assert (Hwfp : wf_text (a_path (child_of old name ch)))
-          by (rewrite Hcp; exact (good_name_wf _ Hgn)).
-        destruct (commit_A H Hinj Htext Hcodec _ _ _ _ _ _ _ Hch0 Hwfp Hc Hmp Hch) as (M0 & _).
-        destruct (commit_cache_ok H Hinj _ _ _ _ _ _ _ Hc Hch) as [Hc0 Hle0].
-        pose proof (commit_entries_cache_ok H _ Hinj _ _ _ _ _ _ _ Hc0 Hr) as [_ Hle1].
-        destruct (commit_node_flags H _ _ _ _ _ _ _ Hch) as (Fp & Fd & _ & _).
-        pose proof (commit_node_isdir _ _ _ _ _ _ _ Hch) as Eid.
-        cbn [commit_entries]. rewrite Eid, Esk, (proj1 Hgn). cbn [negb].
-        assert (Ech : child_of old2 name ch' = child').
-        { assert (Hpath : a_path child' = name) by congruence.
-          pose proof (Hlk (a_path child', child') (or_introl eq_refl)) as Hl.
-          cbn [fst snd] in Hl. rewrite Hpath in Hl.
-          unfold child_of. rewrite Hl, Fd, Hcd, Eid, eqb_reflx. reflexivity. }
-        rewrite Ech.
-        rewrite (IHch _ _ _ _ _ _ Hch0 Hwfp Hc Hmp Hch c2 (cache_le_trans _ _ _ Hle1 Hle2) Hc2 Hs2).
-        rewrite (IHr _ _ _ _ _ _ _ Hsr (Forall_ctree_le _ _ _ Hle0 Hr0) Hold Hc0 M0 Hr c2 old2 Hle2 Hc2 Hs2).
-        * reflexivity.
-        * intros kv Hin. apply Hlk. right. exact Hin.
-  Qed.
-
-  Lemma commit_I n : PI n.
-  Proof.
-    induction n as [b|d|t| |es IH] using node_ind2;
-      intros a c st n' c' a' Ht Hwp Hc Hmp Hok c2 Hle2 Hc2 Hs2.
-    1-4: rewrite commit_node_leaf in Hok by reflexivity;
-         destruct (a_isdir a) eqn:Eisd; [discriminate|];
-         apply commit_file_inv in Hok
-           as [(Hq & -> & -> & ->)|[(_ & b' & Eb & -> & [(Esk & -> & ->)|(Esk & -> & ->)])
-                                   |(d' & o' & Ed & Hg' & -> & -> & ->)]];
-         try discriminate; try (inversion Ht; fail).
-    - apply qmatch_inv in Hq as (_ & Hn & _). discriminate.
-    - (* File, skip *)
-      injection Eb as <-. rewrite commit_node_leaf by reflexivity. cbn [set_cs a_isdir]. rewrite Eisd.
-      unfold commit_file. unfold qmatch at 1. rewrite andb_false_r. cbn [set_cs a_skip]. rewrite Esk.
-      reflexivity.
-    - (* File, stored *)
-      injection Eb as <-.
-      assert (Hg2 : exists o2, cget c2 (H b) = Some o2 /\ o_data o2 = b).
-      { destruct (Hle2 (H b) (mkObj b cache_perms)) as (o2 & Hg2 & E2).
-        - rewrite cget_cput, beqb_refl. reflexivity.
-        - exists o2. split; [exact Hg2|exact E2]. }
-      destruct Hg2 as (o2 & Hg2 & E2).
-      rewrite commit_node_leaf by (destruct st; reflexivity). cbn [set_cs a_isdir]. rewrite Eisd.
-      unfold commit_file. destruct st.
-      + unfold qmatch, in_cache. cbn [set_cs a_cs]. rewrite (Hhas b), Hg2, beqb_refl. reflexivity.
-      + unfold qmatch at 1. rewrite andb_false_r. cbn [set_cs a_skip a_cs]. rewrite Esk.
-        rewrite (cput_id _ _ _ Hc2 Hs2 Hg2 E2). reflexivity.
-    - (* LinkC, qmatch *)
-      apply qmatch_inv in Hq as (Hh & Hn & o & Hg). injection Hn as ->.
-      destruct (Hle2 _ _ Hg) as (o2 & Hg2 & _).
-      rewrite commit_node_leaf by reflexivity. rewrite Eisd. unfold commit_file.
-      unfold qmatch, in_cache. rewrite Hh, Hg2, beqb_refl. reflexivity.
-    - (* LinkC, adopted *)
-      injection Ed as <-. destruct (Hle2 _ _ Hg') as (o2 & Hg2 & _).
-      rewrite commit_node_leaf by reflexivity. cbn [set_cs a_isdir]. rewrite Eisd. unfold commit_file.
-      unfold qmatch, in_cache. cbn [set_cs a_cs]. rewrite Hg2, beqb_refl.
-      destruct (Hc _ _ Hg') as [-> _]. rewrite (Hhas _). reflexivity.
-    - (* Dir *)
-      apply commit_dir_inv in Hok as (Eisd & old & es' & c1 & m & Hold & He & -> & -> & ->).
-      inversion Ht as [| |es0 Hs Hes]; subst.
-      pose proof (old_contents_ok _ _ _ Hmp Hold) as Hoo.
-      destruct (A_entries' H Hinj Htext Hcodec es _ _ _ _ _ _ _ Hs Hes Hoo Hc Hmp He)
-        as (M1 & T1 & K1 & E1 & S1 & _).
-      pose proof (commit_entries_cache_ok H _ Hinj _ _ _ _ _ _ _ Hc He) as [Hc1 _].
-      set (M := mkMan (a_path a) m) in *.
-      assert (Hdec : dec_manifest (enc_manifest M) = Some M)
-        by (apply Hcodec; apply wf_written; assumption).
-      assert (Hle1 : cache_le c1 (cput c1 (H (enc_manifest M)) (enc_manifest M)))
-        by (apply cput_le; assumption).
-      destruct (Hle2 (H (enc_manifest M)) (mkObj (enc_manifest M) cache_perms)) as (o2 & Hg2 & E2);
-        [rewrite cget_cput, beqb_refl; reflexivity|]. cbn [o_data] in E2.
-      rewrite commit_node_dir. cbn [set_cs a_isdir a_norec a_path a_cs]. rewrite Eisd.
-      unfold old_contents. cbn [a_cs set_cs]. rewrite (Hhas _), Hg2, E2, Hdec. cbn [m_contents M].
-      rewrite (I_entries es IH _ _ _ _ _ _ _ Hs Hes Hoo Hc Hmp He c2 m
-                         (cache_le_trans _ _ _ Hle1 Hle2) Hc2 Hs2).
-      + cbv zeta. fold M. rewrite (cput_id _ _ _ Hc2 Hs2 Hg2 E2). reflexivity.
-      + intros [k v] Hin. cbn [fst snd]. apply alookup_sorted_In; [exact S1|exact Hin].
-  Qed.
-
-  (* stmt_commit_idem with [tame n] (through ctree) added; [a_skip a = false] is not needed.
-     (The statement of CacheDefs is not refuted; without [tame] the manifests commit writes may
-     carry flags, and codec_ok as defined says nothing about those.) *)
+  (* stmt_commit_idem for trees with cache links, with [tame n] (through ctree); see commit_idem
+     at the end of the file for the statement of CacheDefs itself *)
   Theorem commit_idem_ctree :
     forall a n c st n' c' a',
       ctree c n -> wf_text (a_path a) -> cache_ok H c -> man_plain c -> cache_sorted c ->
       commit_node H a n c st = Ok (n', c', a') ->
       commit_node H a' n' c' st = Ok (n', c', a').
   Proof.
-    intros a n c st n' c' a' Ht Hwp Hc Hmp Hs Hok.
-    apply (commit_I n _ _ _ _ _ _ Ht Hwp Hc Hmp Hok c' (cache_le_refl c')).
-    - exact (proj1 (commit_cache_ok H Hinj _ _ _ _ _ _ _ Hc Hok)).
-    - exact (commit_sorted _ _ _ _ _ _ _ Hs Hok).
+    exact (gcommit_idem H plain_child man_plain blob_tame Hinj Hhas Htext plain_fresh plain_set_cs
+                        old_contents_ok man_plain_cput tame_dec (codec_plain Hcodec)).
   Qed.
 
   Theorem commit_idem_tame :
@@ -1651,26 +1779,24 @@ Section Histories.
       by (split; [exact Hc|apply cache_le_refl]).
     unfold step. destruct (w_lock w); [exact Hsame|].
     destruct (load_index (w_index w) (w_stages w) []) as [idx|]; [|exact Hsame].
-    destruct cmd as [targets copy|targets copy single|targets|targets single|paths|paths].
-    - destruct (all_or targets idx) as [|t ts]; [exact Hsame|]. cbv zeta.
-      match goal with |- context [fold_left ?f ?l ?a] => destruct (fold_left f l a) as [[st done]|] eqn:Ef end;
-        [|exact Hsame].
-      cbn [fst w_cache]. exact (commit_targets_grows _ _ _ _ _ _ _ Ef Hc).
-    - destruct idx as [|i0 idx0]; [exact Hsame|]. cbv zeta.
-      match goal with |- context [fold_left ?f ?l ?a] => destruct (fold_left f l a) as [[root done]|] end;
-        exact Hsame.
-    - destruct idx as [|i0 idx0]; [exact Hsame|]. cbv zeta.
-      match goal with |- context [fold_left ?f ?l ?a] => destruct (fold_left f l a) as [out|] end;
-        exact Hsame.
-    - destruct idx as [|i0 idx0]; [exact Hsame|]. cbv zeta.
-      match goal with |- context [fold_left ?f ?l ?a] => destruct (fold_left f l a) as [[[root ran] log]|] end;
-        exact Hsame.
-    - cbv zeta.
-      match goal with |- context [fold_left ?f ?l ?a] => destruct (fold_left f l a) as [ix|] end;
-        exact Hsame.
-    - cbv zeta.
-      match goal with |- context [fold_left ?f ?l ?a] => destruct (fold_left f l a) as [ix|] end;
-        exact Hsame.
+    (* robust against new commands: only the commit command mentions commit_stage; every other
+       command returns the world, or a world with the same cache, in every branch *)
+    destruct cmd;
+      lazymatch goal with
+      | |- context [commit_stage] =>
+        match goal with |- context [all_or ?t idx] => destruct (all_or t idx) as [|t0 ts] end;
+        [exact Hsame|]; cbv zeta;
+        match goal with |- context [fold_left ?f ?l ?a] =>
+          destruct (fold_left f l a) as [[st done]|] eqn:Ef end;
+        [|exact Hsame];
+        cbn [fst w_cache]; exact (commit_targets_grows _ _ _ _ _ _ _ Ef Hc)
+      | _ =>
+        cbv zeta;
+        repeat match goal with
+               | |- context [match ?X with _ => _ end] => destruct X
+               end;
+        exact Hsame
+      end.
   Qed.
 
   (* ... and for every history of commands *)
@@ -2048,3 +2174,65 @@ Print Assumptions commit_merkle_final.
 Print Assumptions commit_inv_final.
 Print Assumptions commit_ok_final.
 Print Assumptions commit_idem_final.
+
+(* ------------------------------------------------------------------------------------------ *)
+(* C15 exactly as stated in CacheDefs                                                          *)
+(* ------------------------------------------------------------------------------------------ *)
+
+(* the round trip of ManifestRT does not depend on the flags of the entries *)
+Lemma codec_any m : wfQ (fun _ => True) m -> dec_manifest (enc_manifest m) = Some m.
+Proof.
+  intros (Hp & Hs & He). apply ManifestRT.dec_enc_manifest. unfold ManifestRT.wf_manifest.
+  rewrite (okb_of_wf_text _ Hp), (ssorted_of_sorted _ Hs). cbn [andb].
+  unfold ManifestRT.wf_entries. apply forallb_forall. intros kv Hin. rewrite Forall_forall in He.
+  destruct (He kv Hin) as (E1 & E2 & E3 & E4 & _). unfold ManifestRT.wf_entry.
+  rewrite E1, beqb_refl, E2, (okb_of_wf_text _ E3), (okb_of_wf_text _ E4). reflexivity.
+Qed.
+
+Lemma old_contents_keys a c old :
+  True -> old_contents a c = Ok old -> old_okQ (fun _ => True) old.
+Proof.
+  intros _. unfold old_contents. destruct (has_cs (a_cs a)).
+  - destruct (cget c (a_cs a)) as [o|] eqn:Eg.
+    + destruct (dec_manifest (o_data o)) as [m|] eqn:Ed; [|discriminate].
+      intros Hok. injection Hok as <-. unfold old_okQ.
+      pose proof (dec_manifest_keys _ _ Ed) as Hk.
+      eapply Forall_impl; [|exact Hk]. intros kv [Hkv _]. split; [exact Hkv|exact I].
+    + intros Hok. injection Hok as <-. constructor.
+  - intros Hok. injection Hok as <-. constructor.
+Qed.
+
+Lemma plain_gtree c n : plain n -> gtree (fun _ => True) c n.
+Proof.
+  induction n as [b|d|t| |es IH] using node_ind2; intros Hp; try (inversion Hp; fail).
+  - constructor. exact I.
+  - inversion Hp as [|es' Hs Hes]; subst. constructor; [exact Hs|]. clear Hp Hs.
+    induction IH as [|e r IHe _ IHr]; [constructor|].
+    inversion Hes as [|e' r' [Hg He] Hr']; subst.
+    constructor; [split; [exact Hg|exact (IHe He)]|exact (IHr Hr')].
+Qed.
+
+Lemma Forall_True {A} (l : list A) : Forall (fun _ => True) l.
+Proof. induction l; constructor; auto. Qed.
+
+(* for every tree of sorted good names, with or without cache links, whatever the cache holds *)
+Theorem commit_idem_links H :
+  H_inj H -> H_has H -> H_text H -> forall a n c st n' c' a',
+    gtree (fun _ => True) c n -> wf_text (a_path a) -> cache_ok H c -> cache_sorted c ->
+    commit_node H a n c st = Ok (n', c', a') ->
+    commit_node H a' n' c' st = Ok (n', c', a').
+Proof.
+  intros Hinj Hhas Htext a n c st n' c' a' Ht Hwp Hc Hs Hok.
+  exact (gcommit_idem H (fun _ => True) (fun _ => True) (fun _ => True) Hinj Hhas Htext
+           (fun _ _ => I) (fun _ _ _ => I) old_contents_keys (fun _ _ _ _ _ => I)
+           (fun b _ m _ => Forall_True (m_contents m))
+           codec_any a n c st n' c' a' Ht Hwp Hc I Hs Hok).
+Qed.
+Print Assumptions commit_idem_links.
+
+Theorem commit_idem H : stmt_commit_idem H.
+Proof.
+  unfold stmt_commit_idem. intros Hinj Hhas Htext _ a n c st n' c' a' Hp Hwp _ Hc _ Hs Hok.
+  exact (commit_idem_links H Hinj Hhas Htext _ _ _ _ _ _ _ (plain_gtree c n Hp) Hwp Hc Hs Hok).
+Qed.
+Print Assumptions commit_idem.
